@@ -78,6 +78,9 @@ pub fn install_panic_hook() {
                 .location()
                 .map(|l| (l.file().to_string(), l.line()))
                 .unwrap_or_default();
+            if std::env::var("VERIF_DEBUG_PANICS").is_ok() || file.contains("harness/src") || file.starts_with("src/") {
+                eprintln!("[panic] {}:{}: {}", file, line, msg);
+            }
             LAST_PANIC.with(|c| *c.borrow_mut() = Some(PanicRec { msg, file, line }));
         }));
     });
